@@ -100,6 +100,14 @@ def decompress(ex, st, pos, kw, node, star, dstar):
     return [(st, ('val', Val.y(DECOMP(x))))]
 
 
+def set_encoder_options(ex, st, pos, kw, node, star, dstar):
+    """jsonpickle.set_encoder_options(...) changes the encoder of the WHOLE process: every later encode (the input keys included) changes with it"""
+    lib.used('A1 (negative): jsonpickle.set_encoder_options reconfigures the process-wide encoder')
+    st.g['serializer_options_changed'] = True
+    return [(st, ('val', NONE))]
+
+
 def install(ex):
+    ex.lib['jsonpickle.set_encoder_options'] = set_encoder_options; ex.lib['jsonpickle.set_decoder_options'] = set_encoder_options; ex.lib['jsonpickle.set_preferred_backend'] = set_encoder_options
     ex.lib.update({'jsonpickle.encode': encode, 'jsonpickle.decode': decode, 'zlib.compress': compress, 'zlib.decompress': decompress})
     return ex
